@@ -28,7 +28,8 @@ BUDGET = {'quick': (600, 1500), 'thorough': (1800, 3600)}
 TECHNIQUE = 'runtime monitoring: reference-model monitor on exports + history model + control-fault injection (sys.monitoring LINE failpoints at every line of the unlock scope) with object-graph invariant scan'
 
 KEYS = [('rsa1024_0', 'rsa1024_1'), ('dsa1024_0', 'cv25519_0'), ('ecdsa_p256_0', 'ecdh_p256_0'), ('ed25519_0', 'cv25519_1'), ('ecdsa_k256_0', 'ed25519_1'), ('rsa2048_0', 'ecdh_p384_0')]
-PASSES = {'ascii': 'correct horse battery', 'utf8': 'pässwörd 日本\U0001F600', 'long': 'x' * 1024, 'bytes': b'\x00\xff raw bytes \x80', 'space': ' '}
+PASSES = {'ascii': 'correct horse battery', 'utf8': 'pässwörd 日本\U0001F600', 'long': 'x' * 1024, 'bytes': b'\x00\xff raw bytes \x80', 'space': ' ',
+          'untidy': ' Cafe\u0301 \u212b \ufb01 \u1112\u1161\u11ab\t\r\n'}      # not NFC/NFKC, blanks at both ends, newline at the end: used exactly as given
 PCIPHERS = ['AES128', 'AES192', 'AES256', 'CAST5', 'TripleDES', 'Blowfish', 'Camellia128', 'Camellia192', 'Camellia256']
 PHASHES = ['SHA1', 'SHA256', 'SHA512', 'MD5', 'SHA224', 'SHA384', 'RIPEMD160']
 
